@@ -111,7 +111,7 @@ Record life_case := { lc_ops : list op; lc_obs : list obs }.
 
 Definition oclass_eqb (a b : oclass) : bool :=
   match a, b with
-  | KOk, KOk | KErr, KErr | KReturned, KReturned | KBlocked, KBlocked => true
+  | KOk, KOk | KErr, KErr | KReturned, KReturned | KBlocked, KBlocked | KCrashed, KCrashed => true
   | _, _ => false
   end.
 
